@@ -161,7 +161,21 @@ class CE(cf.CancelledError):
     future is failed, not cancelled."""
 
 
-EXC = {"E0": E0, "E1": E1, "E2": E2, "E3": E3, "Fault": Fault, "EF": EF, "EB": EB, "CE": CE}
+class EQ(Exception):
+    """An exception type with VALUE equality (a dataclass-like error): two distinct instances compare equal."""
+
+    def __eq__(self, other):
+        return isinstance(other, EQ)
+
+    def __hash__(self):
+        return 7
+
+
+class ISE(InvalidStateError):
+    """User code failing with (a subclass of) the very exception type the library tolerates from its own set_result() races."""
+
+
+EXC = {"E0": E0, "E1": E1, "E2": E2, "E3": E3, "Fault": Fault, "EF": EF, "EB": EB, "CE": CE, "EQ": EQ, "ISE": ISE}
 
 
 def verif_orig_raise_site(e):
